@@ -70,4 +70,21 @@ Proof.
   unfold calls_of_tokens. rewrite Hex, trace_same, Eptx. exact Hcalls.
 Qed.
 
+(** a text the rule tree refuses is refused by the shipped parser: Parse() reports an error *)
+Theorem rejected_shipped buf memo inline st0 :
+  ko pegpeg_d pegpeg_d_ptx buf penv (EName pr_Grammar) 0 -> good_buf buf -> valid_buf buf -> slot_ok pegpeg_is inline 0 ->
+  exists n st', machine pegpeg_is pegpeg_is_ptx buf penv memo inline n 0 st0 = Some (Ret false st').
+Proof.
+  intros (n & evs & Hev) Hgb Hvb Hslot.
+  destruct pegpeg_facts as (Hwf & Hg2 & Hs2 & Eopt & Hopt & Eptx & Er0).
+  assert (Hp : peg_parse pegpeg_d pegpeg_d_ptx buf penv n 0 = Some (Fail, evs)).
+  { unfold peg_parse. rewrite <- Er0. exact Hev. }
+  destruct (optimize_sound pegpeg_d (nul_table pegpeg_d) (rank_table pegpeg_d (nul_table pegpeg_d)) Hwf Hopt
+              pegpeg_d_ptx buf penv Hvb 0 n _ Hp) as (m & evs' & Hp'). cbn [fst] in Hp'. rewrite Eopt in Hp'.
+  rewrite <- Eptx in Hp'.
+  pose proof (c01_verdict_prefix pegpeg_is pegpeg_is_ptx buf penv (good_grammar_b_ok _ Hg2) Hgb (good_switches_b_ok _ Hs2)
+                memo inline m 0 st0 _ Hslot Hp') as Hm. cbn [fst] in Hm. destruct Hm as (st' & Hm).
+  exists m, st'. exact Hm.
+Qed.
+
 End Shipped.
